@@ -31,6 +31,9 @@ def main(argv=None):
     reach = None
     try:
         mod = importlib.import_module('vmon.props.' + opts.prop.lower())
+        if opts.tier == 'thorough':
+            from vmon.model import set_large_sizes
+            set_large_sizes(True)
         ctx = Context(opts, obs)
         anchors = getattr(mod, 'ANCHORS', [])
         reach = probes.ReachMonitor(anchors)
